@@ -91,9 +91,17 @@ def replay_history(case) -> List[Tuple[str, str, str]]:
                                   f"write_snapshot_auto(dm={step['dm']}, {step['from']}->{step['to']}) wrote {got}, spec says {step['wrote']}"))
                     break
             elif op == "delete":
-                for q in (full(step["e"]), full(step["e"]) + ".meta"):
-                    if os.path.exists(q):
-                        os.remove(q)
+                # how a baseline disappears: body and sidecar together, the body alone (a retention job that matches *.json),
+                # or the body with a leftover temporary of an interrupted atomic write next to it - files that merely START
+                # like the snapshot are not the snapshot
+                dk = (len(h) + step["e"] + case.get("ck", 0)) % 3
+                if os.path.exists(full(step["e"])):
+                    os.remove(full(step["e"]))
+                if dk == 0 and os.path.exists(full(step["e"]) + ".meta"):
+                    os.remove(full(step["e"]) + ".meta")
+                if dk == 2:
+                    with open(full(step["e"]) + ".k3x9qz1a", "w") as f_:
+                        f_.write('{"schema": "snapshot:v1", "mode": "full", "etag_to": "x"}\n{"stray": true}\n')
             elif op == "corrupt":
                 p = full(step["e"])
                 st = os.stat(p)
